@@ -49,6 +49,8 @@ type Profile struct {
 	BlockMaxGas       int64 // > 0: block gas limit of the consensus parameters
 	EdgeAddresses     bool // two of the genesis validators have addresses ending in 0xFF and 0x00
 	UnstakingTimeChanges bool // governance changes pos/UnstakingTime (both directions) while validators are unstaking
+	OddGenesis        string // a deliberately inconsistent pos genesis (see GenesisConfig.Defect)
+	HugeGenesisStake  bool   // a genesis validator whose stake exceeds int64
 	ImpliedSupply     bool // the genesis file states no supply (auth sums the accounts in the store; pos is initialised first) and repeats an account entry
 	RichGenesis       bool // genesis validators in jail / unstaking (with signing infos and queue entries), as in an exported state
 	ExportedGenesis   bool // ... and the pos genesis is marked "exported" with previous-state powers
@@ -257,6 +259,12 @@ func NewWorld(seed uint64, p Profile, idx *TxIndex) *World {
 		}
 		g.Validators = append(g.Validators, gv)
 	}
+	g.Defect = p.OddGenesis
+	if p.HugeGenesisStake && len(g.Validators) > 1 {
+		// 10^19 and a bit: more than an int64 holds, a power Tendermint accepts
+		st, _ := new(big.Int).SetString("10000000000000000000", 10)
+		g.Validators[len(g.Validators)-1].StakeBig = st.Add(st, big.NewInt(r.Int63n(1000000000)))
+	}
 	g.Exported = p.RichGenesis && p.ExportedGenesis && uint64(len(g.Validators)) <= g.PosParams.MaxValidators
 	if p.RichGenesis && len(w.Eds) > p.GenesisVals+2 {
 		// a key convicted of double signing on the exported chain whose validator record is gone: only its
@@ -273,7 +281,7 @@ func NewWorld(seed uint64, p Profile, idx *TxIndex) *World {
 }
 
 func (w *World) Start(db dbm.DB) *Call {
-	spec := &InitSpec{AppState: w.Cfg.AppState(), CustomPos: w.P.CustomPos, PosFirst: w.P.ImpliedSupply, Pruning: w.P.Pruning, MaxGas: -1, SecpValidators: w.P.SecpValidators, Trace: w.P.Trace}
+	spec := &InitSpec{AppState: w.Cfg.AppState(), CustomPos: w.P.CustomPos, PosFirst: w.P.ImpliedSupply, Defect: w.Cfg.Defect, Pruning: w.P.Pruning, MaxGas: -1, SecpValidators: w.P.SecpValidators, Trace: w.P.Trace}
 	if w.P.BlockMaxGas > 0 {
 		spec.MaxGas = w.P.BlockMaxGas
 	}
